@@ -39,6 +39,7 @@ class FileInfo:
         self.base = None       # (hdr, raw, graw, dump) of a fresh read
         self.rd = self.wd = None
         self.brush_ents = []
+        self.fail_views = set()   # names of views whose parser raises on this file (corrupted / unknown-version lumps)
 
 
 def make_files(ctx, tmp, variants=None):
@@ -61,8 +62,15 @@ def prepare(ctx, f, T, tmp):
     names = T['names']
     f.base = U.file_summary(f.path)
     f.brush_ents = [i for i, e in enumerate(f.base[3]['ents']) if i > 0 and any(k.casefold() == 'model' and v.startswith('*') for k, v in e['kv'])]
+    B = U.impl()
+    f.fail_views = set()
+    for n in names:
+        try:
+            getattr(B.BSP(f.path), n)
+        except Exception:
+            f.fail_views.add(n)
     try:
-        rd, wd = U.dynamic_deps(f.path, os.path.join(tmp, 'trace_out.bsp'), names)
+        rd, wd = U.dynamic_deps(f.path, os.path.join(tmp, 'trace_out.bsp'), names, tolerate=f.fail_views)
         f.rd = [[T['idx'][x] for x in rd[n]] for n in names]
         f.wd = [[T['idx'][x] for x in wd[n]] for n in names]
         return None
@@ -159,12 +167,20 @@ def impl_case(f, seq, T, tmp, tag='c'):
             b = B.BSP(f.path)
             orig = U.raw_snapshot(b, gids)
             for v in seq:
-                getattr(b, names[v])
+                raised = None
+                try:
+                    getattr(b, names[v])
+                except Exception as e:
+                    if names[v] not in f.fail_views:
+                        raise
+                    raised = type(e).__name__      # the caller catches the parse error and goes on
                 empty, parsed = U.observe(b, gids)
-                steps.append({'empty': empty, 'parsed': parsed, 'raw': U.raw_snapshot(b, gids), 'stripped': ents_stripped(b, f)})
+                steps.append({'empty': empty, 'parsed': parsed, 'raw': U.raw_snapshot(b, gids), 'stripped': ents_stripped(b, f),
+                              'raised': raised})
             b.save(out1)
             empty, parsed = U.observe(b, gids)
-            steps.append({'empty': empty, 'parsed': parsed, 'raw': U.raw_snapshot(b, gids), 'stripped': ents_stripped(b, f)})
+            steps.append({'empty': empty, 'parsed': parsed, 'raw': U.raw_snapshot(b, gids), 'stripped': ents_stripped(b, f),
+                          'raised': None})
     except Exception as e:
         problems.append((f'exception:{type(e).__name__}', f'{type(e).__name__}: {e} while reading views / saving'))
         return steps, problems, None
@@ -178,7 +194,11 @@ def impl_case(f, seq, T, tmp, tag='c'):
         with U.quiet():
             b2 = B.BSP(out1)
             for v in seq:
-                getattr(b2, names[v])
+                try:
+                    getattr(b2, names[v])
+                except Exception:
+                    if names[v] not in f.fail_views:
+                        raise
             b2.save(out2)
         if pathlib.Path(out1).read_bytes() != pathlib.Path(out2).read_bytes():
             problems.append(('idempotent', 'reading the saved file the same way and saving again gives different bytes'))
@@ -187,24 +207,38 @@ def impl_case(f, seq, T, tmp, tag='c'):
     return steps, problems, orig
 
 
+INITIAL_OBS = {'parsed': [], 'raw': None, 'pending': [], 'stuck': False}
+
+
+def model_ops(f, seq, T):
+    """ops for the driver: reads whose parser raises on this file (before it touches another view) leave the object
+    unchanged and are not sent."""
+    return [v for v in seq if T['names'][v] not in f.fail_views] + [-1]
+
+
 def compare_with_model(ctx, f, seq, steps, orig, reply, T):
     """model observation vs implementation observation, step by step."""
     case = {'file': f.label, 'seq': [T['names'][v] for v in seq]}
     msteps = reply.get('steps')
-    if msteps is None or len(msteps) != len(steps):
+    n_ok = len([v for v in seq if T['names'][v] not in f.fail_views]) + 1
+    if msteps is None or len(msteps) != n_ok or len(steps) != len(seq) + 1:
         ctx.disagree(case, f'{len(steps)} steps', reply, 'driver reply')
         return
     main_of = T['main']
-    for i, (si, sm) in enumerate(zip(steps, msteps)):
+    mi = -1
+    for i, si in enumerate(steps):
         where = f'after reading {T["names"][seq[i]]}' if i < len(seq) else 'after save'
+        if i == len(seq) or not si.get('raised'):
+            mi += 1
+        else:
+            where += f' (parser raised {si["raised"]}, caught)'
+        sm = msteps[mi] if mi >= 0 else INITIAL_OBS
         m_parsed = sorted(main_of[v] for v, q in sm['parsed'])
         if m_parsed != si['parsed']:
             ctx.disagree(case, {'parsed': si['parsed']}, {'parsed': m_parsed}, f'_parsed_lumps keys {where}')
             return
-        for l, code in sm['raw']:
-            data = si['raw'].get(l)
-            if data is None:
-                continue
+        for l, data in si['raw'].items():
+            code = 1 if sm['raw'] is None else dict(map(tuple, sm['raw'])).get(l)
             if code == 0 and data != b'':
                 ctx.disagree(case, f'lump {l} has {len(data)} bytes', 'emptied', f'lump data {where}')
                 return
@@ -418,8 +452,14 @@ def run_session(sess, fmap, T, tmp, tag='sess'):
                 elif o not in objs:
                     continue          # (shrunk sessions) op on an object that is not open
                 elif kind == 'read':
-                    getattr(objs[o], names[arg])
-                    counts[o] += 1
+                    if names[arg] in f.fail_views:
+                        try:
+                            getattr(objs[o], names[arg])
+                        except Exception:
+                            pass           # the caller catches the parse error; the object must be unchanged
+                    else:
+                        getattr(objs[o], names[arg])
+                        counts[o] += 1
                     anyread[o] = True
                 elif kind == 'save':
                     out = os.path.join(tmp, f'{tag}_{o}.bsp')
@@ -436,8 +476,9 @@ def run_session(sess, fmap, T, tmp, tag='sess'):
     return records, problems
 
 
-def session_model_ops(sess, o, T):
-    return [(arg if kind == 'read' else -1) for (oo, kind, arg) in sess['ops'] if oo == o and kind in ('read', 'save')]
+def session_model_ops(sess, o, T, f):
+    return [(arg if kind == 'read' else -1) for (oo, kind, arg) in sess['ops'] if oo == o and kind in ('read', 'save')
+            and not (kind == 'read' and T['names'][arg] in f.fail_views)]
 
 
 def compare_session(ctx, sess, records, replies, T):
@@ -488,7 +529,7 @@ def sessions(ctx, drv, files, T, tmp, t_end):
         if drv is not None:
             for o in range(len(sess['files'])):
                 f = fmap[sess['files'][o]]
-                reqs.append({'op': 'run', 'rd': f.rd, 'wd': f.wd, 'ops': session_model_ops(sess, o, T)})
+                reqs.append({'op': 'run', 'rd': f.rd, 'wd': f.wd, 'ops': session_model_ops(sess, o, T, f)})
             pend.append((sess, records))
     if drv is not None and reqs:
         replies = drv.batch(reqs)
@@ -568,11 +609,13 @@ def _run_all(ctx, drv, T):
                 ctx.case(case, nontrivial=bool(seq), sample_every=97)
                 ctx.count(f'seq:{kind}')
                 ctx.count(f'file:{f.label}')
+                if any(st.get('raised') for st in steps):
+                    ctx.count('seq:with-caught-parse-error')
                 for key, what in problems:
                     ctx.witness(key, f'[{f.label}; read {case["seq"]}] {what}',
                                 {'file': f.label, 'variant': f.variant.describe() if f.variant else None, 'seq': case['seq'], 'seed': ctx.seed})
                 if drv is not None and orig is not None:
-                    reqs.append({'op': 'run', 'rd': f.rd, 'wd': f.wd, 'ops': list(seq) + [-1]})
+                    reqs.append({'op': 'run', 'rd': f.rd, 'wd': f.wd, 'ops': model_ops(f, seq, T)})
                     pend.append((f, seq, steps, orig))
         sessions(ctx, drv, files, T, tmp, time.time() + ctx.budget(25, 240))
         if drv is not None and reqs:
